@@ -31,6 +31,9 @@ def run(ctx):
     n3 = S.no_resign_after_rounding(rep, F, E, fns + wpr)
     rep.floor('PROV-CTX final sinks', n1 + n2, 5)
     nrt = S.rounding_term_sign(rep, F)
+    from rules import countdigits
+    ncd = countdigits.check(rep, F)
+    rep.floor('digit-count obligations', ncd, 2)
     rep.floor('rounding-term call sites', nrt, 2)
     # the two-operand sum hands the EXACT sum a + b to the rounding routine on every path
     exact.prepare(F)
